@@ -655,6 +655,65 @@ def t_backtrack(ex):
         ex.oblige(f"{P}.ensures.only_the_operations_already_reverted_are_cut_off", list(left) == ops[:k - (failing - 1)])
 
 
+def t_remove_slotting(ex):
+    """PigeonHoledSlots.remove_slotting(obj) -- what add_op.revert, replace_op and remove_op undo themselves with -- drops from the slot list
+    of obj's key exactly the entries that ARE obj (an equal package from another repository stays), raises KeyError exactly when no entry is
+    obj, deletes the key when nothing is left and touches no other key; for slot lists of any length.  (Entries as a set: order and
+    multiplicity of what stays are not stated by this contract.)"""
+    from pkgcore.resolver.pigeonholes import PigeonHoledSlots
+    from pyvc.sym import Kind, KSeq, SSeq
+    P = "C17.PigeonHoledSlots.remove_slotting"
+    sort = z3.DeclareSort("SlottedPkg")
+    eqcls = theory.ufun("slotted_pkg_eq_class", sort, _EQ)
+
+    class PkgRef(SRef):
+        """a package object: == compares what packages compare by (key and version: the equality class), identity is the reference"""
+        def __eq__(self, o):
+            return SBool(eqcls(self.t) == eqcls(o.t)) if isinstance(o, PkgRef) else False
+
+        def __ne__(self, o):
+            r = self.__eq__(o)
+            return True if r is False else Not(r)
+        __hash__ = None
+    K = Kind("SlottedPkg", sort, lambda t: PkgRef(t, K), lambda v: v.t if isinstance(v, PkgRef) else None)
+    obj = K.fresh("obj")
+    slots = KSeq(K, "list").fresh("slots")
+    key_present = bool(ex.choose(2))
+    other = ("an", "other", "key's", "list")
+    table = {"cat/other": other}
+    if key_present:
+        ex.assume(slots.length() >= 1)       # the table holds no empty lists (representation invariant: remove deletes an emptied key)
+        table["cat/foo"] = slots
+    me = SObj(PigeonHoledSlots, {"slot_dict": table, "limiters": {}})
+    it = Interp(ex, label=P)
+    it.ref_attrs = {("SlottedPkg", "key"): lambda it_, o: "cat/foo"}
+    out = call(it, it.target("src/pkgcore/resolver/pigeonholes.py", "PigeonHoledSlots.remove_slotting"), me, obj)
+    y = z3.Const("y!c17rs", sort)
+    before = slots.as_set().t if key_present else z3.EmptySet(sort)
+    is_there = z3.IsMember(obj.t, before)
+    ex.oblige(f"{P}.frame.other_keys_untouched", table.get("cat/other") is other and set(table) <= {"cat/other", "cat/foo"})
+    if out.raised:
+        ex.cover("raises")
+        ex.oblige(f"{P}.raises.KeyError_only", out.exc.cls is KeyError, kind="exceptional-postcondition")
+        ex.oblige(f"{P}.raises.only_when_no_entry_is_the_object", Not(SBool(is_there)), kind="exceptional-postcondition")
+        ex.oblige(f"{P}.raises.leaves_the_table_as_it_was", table.get("cat/foo") is (slots if key_present else None), kind="exceptional-postcondition")
+        return
+    ex.cover("returns")
+    ex.oblige(f"{P}.ensures.returns_only_when_an_entry_is_the_object", SBool(is_there))
+    left = table.get("cat/foo")
+    if left is None:
+        ex.cover("key deleted")
+        ex.oblige(f"{P}.ensures.key_deleted_only_when_every_entry_was_the_object", SBool(z3.ForAll([y], z3.Implies(z3.IsMember(y, before), y == obj.t))))
+    else:
+        ex.cover("entries left")
+        ok = isinstance(left, SSeq)
+        ex.oblige(f"{P}.ensures.the_key_keeps_a_list", ok)
+        if ok:
+            ex.oblige(f"{P}.ensures.exactly_the_entries_that_are_the_object_are_dropped_equal_ones_stay",
+                      SBool(z3.ForAll([y], z3.IsMember(y, left.as_set().t) == z3.And(z3.IsMember(y, before), y != obj.t))))
+            ex.oblige(f"{P}.ensures.no_empty_list_is_left_in_the_table", left.length() >= 1)
+
+
 def tasks():
     fns = [(FILE, n) for n in ("plan_state.backtrack", "add_op.apply", "add_op.revert", "remove_op.apply", "remove_op.revert",
                                "replace_op.apply", "replace_op.revert", "incref_forward_block_op.apply", "incref_forward_block_op.revert",
@@ -662,6 +721,7 @@ def tasks():
     return [Task("C17.plan_state.backtrack", None, fns, enumerate=enum_histories),
             Task("C17.PigeonHoledSlots", None, [("src/pkgcore/resolver/pigeonholes.py", "PigeonHoledSlots." + n) for n in ("fill_slotting", "remove_slotting", "add_limiter", "remove_limiter", "check_limiters", "find_atom_matches")],
                  enumerate=enum_slot_table),
+            Task("C17.remove_slotting", t_remove_slotting, [("src/pkgcore/resolver/pigeonholes.py", "PigeonHoledSlots.remove_slotting")]),
             Task("C17.operations", t_ops, fns[1:]),
             Task("C17.backtrack", t_backtrack, fns[:1], bounded={"operations in the plan": 4, "note": "every position, every failing revert"})]
 
